@@ -185,4 +185,183 @@ Proof.
   unfold exec_start, cmd_of. destruct (null (td_cmd t)); [rewrite app_nil_r; reflexivity | reflexivity].
 Qed.
 
+Lemma cmd_of_in t l : In l (cmd_of t) -> null (td_cmd t) = false /\ l = td_label t.
+Proof.
+  unfold cmd_of. destruct (null (td_cmd t)); intros Hl; [destruct Hl|].
+  destruct Hl as [<-|[]]. auto.
+Qed.
+
+Lemma cmd_of_notin t l : ~ In l (cmd_of t) -> null (td_cmd t) = true \/ l <> td_label t.
+Proof.
+  unfold cmd_of. destruct (null (td_cmd t)); intro Hl; [left; reflexivity | right].
+  intro E. apply Hl. left. auto.
+Qed.
+
+(* the (re-)execution of a dependency that has a key, as LoadDependencyOutputs does it (never "tainted") *)
+Lemma execute_dep_frame cfg s (R : nat -> tdef -> Prop) d dt dkey b ok b' :
+  R d dt -> rt_key (get_rt b d) = Some dkey ->
+  execute cfg s d dt dkey false b = (ok, b') -> dep_frame s R (cmd_of dt) b b'.
+Proof.
+  intros Hr Hkey E.
+  pose proof (execute_key _ _ _ _ _ _ _ _ _ E) as Hk.
+  pose proof (fun dg x => execute_cas_mono _ _ _ _ _ _ _ _ _ dg x E) as Hcas.
+  assert (Hwho : forall l, In l (cmd_of dt) ->
+            exists d0 dt0, R d0 dt0 /\ td_label dt0 = l /\ rt_key (get_rt b d0) <> None).
+  { intros l Hl. apply cmd_of_in in Hl as [_ ->]. exists d, dt. split; [exact Hr|]. split; [reflexivity|].
+    rewrite Hkey. discriminate. }
+  destruct ok.
+  - pose proof E as Enull. apply (Build_single_proofs.execute_ok H) in E. destruct E as [K1 K2 K3 K4 K5 K6 K7 K8 K9 K10 K11].
+    constructor; auto.
+    + rewrite K8. apply exec_start_cmd_of.
+    + intros l Hl. apply cmd_of_notin in Hl as [Hn|Hne].
+      * rewrite (execute_world_null _ _ _ _ _ _ _ _ _ Hn Enull). reflexivity.
+      * destruct (null (td_cmd dt)); [rewrite K1; reflexivity|].
+        apply (run_command_ext s dt _ _ K1). exact Hne.
+    + intro k. destruct (str_eq_dec k dkey) as [->|Hne]; [right | left; apply K5; exact Hne].
+      exists d, dt. split; [exact Hr|]. split; [rewrite Hk; exact Hkey|]. split; [exact K4|].
+      intro Hn. unfold cmd_of. rewrite Hn. left. reflexivity.
+  - pose proof E as Enull. apply (Build_single_proofs.execute_fail H) in E as (F1 & F2 & F3 & F4 & F5 & F6).
+    constructor; auto.
+    + rewrite F1. reflexivity.
+    + rewrite F3. apply exec_start_cmd_of.
+    + intros l Hl. apply cmd_of_notin in Hl as [Hn|Hne].
+      * rewrite (execute_world_null _ _ _ _ _ _ _ _ _ Hn Enull). reflexivity.
+      * apply F6. exact Hne.
+    + intro k. left. rewrite F1. reflexivity.
+Qed.
+
+(* ================================================================== LoadDependencyOutputs *)
+Lemma ldo_dep_frame cfg s : forall f ds b ok b',
+  load_dep_outputs f cfg s ds b = (ok, b') -> exists extra, dep_frame s (rdep s ds) extra b b'.
+Proof.
+  induction f as [|f IH]; intros ds b ok b' E; cbn [Build.load_dep_outputs] in E.
+  { inversion E; subst. exists []. apply dep_frame_refl. }
+  destruct ds as [|d0 ds']; [inversion E; subst; exists []; apply dep_frame_refl|].
+  assert (Htl : forall d dt, rdep s ds' d dt -> rdep s (d0 :: ds') d dt).
+  { intros d dt. apply rdep_incl. intros x Hx. right. exact Hx. }
+  destruct (resolve s d0) as [[d dt]|] eqn:Eres.
+  2:{ apply IH in E as [extra Hf]. exists extra. eapply dep_frame_mono; [exact Htl | exact Hf]. }
+  assert (Hhere : rdep s (d0 :: ds') d dt) by (eapply rdep_here; [left; reflexivity | exact Eres]).
+  assert (Hdeep : forall e et, rdep s (td_deps dt) e et -> rdep s (d0 :: ds') e et).
+  { intros e et He. eapply rdep_deep; [left; reflexivity | exact Eres | exact He]. }
+  destruct (rt_key (get_rt b d)) as [dkey|] eqn:Ekey; [|inversion E; subst; exists []; apply dep_frame_refl].
+  destruct (rlookup dkey (c_results (b_cache b))) as [r|].
+  2:{ exists (cmd_of dt). eapply execute_dep_frame; eauto. }
+  destruct (load_outputs H d dt r b) as [ok1 b1] eqn:El.
+  pose proof (load_outputs_dep_frame s (rdep s (d0 :: ds')) _ _ _ _ _ _ El) as F1.
+  destruct (negb ok1 || (td_nocache dt && negb (rt_loaded (get_rt b1 d)))).
+  - destruct (load_dep_outputs f cfg s (td_deps dt) b1) as [ok2 b2] eqn:E2.
+    apply IH in E2 as [e2 F2]. apply (dep_frame_mono _ _ _ _ _ _ Hdeep) in F2.
+    pose proof (dep_frame_trans _ _ _ _ _ _ _ F1 F2) as F12. cbn [app] in F12.
+    destruct ok2; cbn [negb] in E; [|inversion E; subst; exists e2; exact F12].
+    destruct (Build.execute H cfg s d dt dkey false b2) as [ok3 b3] eqn:E3.
+    assert (Hk2 : rt_key (get_rt b2 d) = Some dkey) by (rewrite (df_key _ _ _ _ _ F12); exact Ekey).
+    pose proof (execute_dep_frame cfg s _ d dt dkey b2 ok3 b3 Hhere Hk2 E3) as F3.
+    pose proof (dep_frame_trans _ _ _ _ _ _ _ F12 F3) as F123.
+    destruct ok3; [|inversion E; subst; eexists; exact F123].
+    apply IH in E as [e4 F4]. apply (dep_frame_mono _ _ _ _ _ _ Htl) in F4.
+    eexists. eapply dep_frame_trans; [exact F123 | exact F4].
+  - apply IH in E as [e4 F4]. apply (dep_frame_mono _ _ _ _ _ _ Htl) in F4.
+    eexists. eapply dep_frame_trans; [exact F1 | exact F4].
+Qed.
+
+(* ================================================================== the task of one target, any mode *)
+Notation key_of := (Build_single_proofs.key_of H).
+Notation pt_b0 := Build_c02_proofs.pt_b0.
+Notation pt_tainted := Build_c02_proofs.pt_tainted.
+Notation hit_cond := Build_c02_proofs.hit_cond.
+
+Inductive task_outcome2 (cfg : config) (s : sources) (i : nat) (t : tdef) (b b' : bstate) : Prop :=
+| T2_nohash :                        (* a dependency has no output hash: nothing happens *)
+    dep_hashes s b (td_deps t) = None ->
+    b' = mark b i TFailed -> task_outcome2 cfg s i t b b'
+| T2_hit : forall dh res b1,          (* served from the cache: nothing runs, nothing is stored *)
+    dep_hashes s b (td_deps t) = Some dh ->
+    rlookup (key_of s t dh) (c_results (b_cache b)) = Some res ->
+    hit_cond cfg t b = true ->
+    dep_frame s (rdep s (td_deps t)) [] (pt_b0 i (key_of s t dh) b) b1 ->
+    b_cache b1 = b_cache b -> w_ext (b_world b1) = w_ext (b_world b) ->
+    b' = mark b1 i THit -> task_outcome2 cfg s i t b b'
+| T2_deps_fail : forall dh extra b2,  (* mode minimal: loading the dependency outputs failed *)
+    dep_hashes s b (td_deps t) = Some dh ->
+    dep_frame s (rdep s (td_deps t)) extra (pt_b0 i (key_of s t dh) b) b2 ->
+    b' = mark b2 i TFailed -> task_outcome2 cfg s i t b b'
+| T2_exec_ok : forall dh extra b1 b3, (* (dependencies re-run,) then executed successfully *)
+    dep_hashes s b (td_deps t) = Some dh ->
+    dep_frame s (rdep s (td_deps t)) extra (pt_b0 i (key_of s t dh) b) b1 ->
+    exec_ok s t (key_of s t dh) (pt_tainted t b) b1 b3 ->
+    (forall j, rt_key (get_rt b3 j) = rt_key (get_rt b1 j)) ->
+    (forall dg x, alookup dg (c_cas (b_cache b1)) = Some x -> alookup dg (c_cas (b_cache b3)) = Some x) ->
+    b' = mark b3 i TExecuted -> task_outcome2 cfg s i t b b'
+| T2_exec_fail : forall dh extra b1 b3, (* (dependencies re-run,) then executed and failed *)
+    dep_hashes s b (td_deps t) = Some dh ->
+    dep_frame s (rdep s (td_deps t)) extra (pt_b0 i (key_of s t dh) b) b1 ->
+    b_cache b3 = b_cache b1 -> sts b3 = sts b1 -> b_exec b3 = b_exec b1 ++ cmd_of t ->
+    rt_len b3 = rt_len b1 -> ext_frame t (b_world b1) (b_world b3) ->
+    (forall j, rt_key (get_rt b3 j) = rt_key (get_rt b1 j)) ->
+    b' = mark b3 i TFailed -> task_outcome2 cfg s i t b b'.
+
+Lemma exec_tail_outcome cfg s i t b dh extra b1 :
+  dep_hashes s b (td_deps t) = Some dh ->
+  dep_frame s (rdep s (td_deps t)) extra (pt_b0 i (key_of s t dh) b) b1 ->
+  task_outcome2 cfg s i t b (exec_tail H cfg s i t (key_of s t dh) (pt_tainted t b) b1).
+Proof.
+  intros Hd Hf. unfold exec_tail.
+  destruct (Build.execute H cfg s i t (key_of s t dh) (pt_tainted t b) b1) as [ok b3] eqn:E.
+  pose proof (execute_key _ _ _ _ _ _ _ _ _ E) as Hk.
+  pose proof (fun dg x => execute_cas_mono _ _ _ _ _ _ _ _ _ dg x E) as Hcas.
+  destruct ok.
+  - apply (Build_single_proofs.execute_ok H) in E. eapply T2_exec_ok; eauto.
+  - apply (Build_single_proofs.execute_fail H) in E as (F1 & F2 & F3 & F4 & F5 & F6).
+    eapply T2_exec_fail; eauto. rewrite F3. apply exec_start_cmd_of.
+Qed.
+
+Lemma pt_b0_dep_frame_to s R extra i key b b1 b2 e2 :
+  dep_frame s R extra (pt_b0 i key b) b1 -> dep_frame s R e2 b1 b2 ->
+  dep_frame s R (extra ++ e2) (pt_b0 i key b) b2.
+Proof. apply dep_frame_trans. Qed.
+
+Lemma set_ohash_dep_frame s R b i oh : dep_frame s R [] b (set_ohash b i oh).
+Proof.
+  constructor; auto.
+  - unfold set_ohash. apply rt_len_set_rt.
+  - apply sts_set_ohash.
+  - intro j. unfold set_ohash. apply (get_rt_set_rt_field rt_key). reflexivity.
+  - rewrite app_nil_r. reflexivity.
+  - intros l [].
+Qed.
+
+Lemma process_target_any cfg s i t b : task_outcome2 cfg s i t b (process_target cfg s i t b).
+Proof.
+  destruct (cfg_mode cfg) eqn:Hm.
+  - rewrite (pt_LAll H cfg s i t b Hm).
+    destruct (dep_hashes s b (td_deps t)) as [dh|] eqn:Hd; [|apply T2_nohash; auto].
+    cbv zeta. change (pt_key H s t dh) with (key_of s t dh).
+    set (key := key_of s t dh).
+    pose proof (dep_frame_refl s (rdep s (td_deps t)) (pt_b0 i key b)) as F0.
+    destruct (rlookup key (c_results (b_cache b))) as [res|] eqn:Er; [|eapply exec_tail_outcome; eauto].
+    destruct (hit_cond cfg t b) eqn:Ehc; [|eapply exec_tail_outcome; eauto].
+    destruct (load_outputs H i t res (pt_b0 i key b)) as [hit b1] eqn:El.
+    pose proof (load_outputs_dep_frame s (rdep s (td_deps t)) _ _ _ _ _ _ El) as F1.
+    destruct hit; [|eapply exec_tail_outcome; eauto].
+    apply (Build_single_proofs.load_outputs_frame H) in El as (Fc & _ & _ & _ & _ & Fe).
+    eapply T2_hit with (dh := dh) (res := res) (b1 := b1); eauto.
+  - rewrite (pt_LMin H cfg s i t b Hm).
+    destruct (dep_hashes s b (td_deps t)) as [dh|] eqn:Hd; [|apply T2_nohash; auto].
+    cbv zeta. change (pt_key H s t dh) with (key_of s t dh).
+    set (key := key_of s t dh). unfold hit_res.
+    assert (Hmiss : task_outcome2 cfg s i t b
+              (let '(okd, b2) := load_dep_outputs (S (length (s_nodes s))) cfg s (td_deps t) (pt_b0 i key b) in
+               if okd then exec_tail H cfg s i t key (pt_tainted t b) b2 else mark b2 i TFailed)).
+    { destruct (load_dep_outputs (S (length (s_nodes s))) cfg s (td_deps t) (pt_b0 i key b)) as [okd b2] eqn:E2.
+      apply ldo_dep_frame in E2 as [extra F2].
+      destruct okd; [eapply exec_tail_outcome; eauto | eapply T2_deps_fail; eauto]. }
+    destruct (rlookup key (c_results (b_cache b))) as [res|] eqn:Er; [|exact Hmiss].
+    destruct (hit_cond cfg t b) eqn:Ehc; [|exact Hmiss].
+    eapply T2_hit with (dh := dh) (res := res) (b1 := set_ohash (pt_b0 i key b) i (r_outhash res)); eauto.
+    + apply set_ohash_dep_frame.
+    + reflexivity.
+    + reflexivity.
+Qed.
+
 End LiftMin.
